@@ -26,28 +26,49 @@ def relevant_checks(p):
     return out or CHECKS
 
 
+# one snapshot of /repo for the whole run: /repo may be edited while the matrix runs
+_BASE_DIR = tempfile.mkdtemp(prefix="acq-mxbase.", dir="/var/tmp")
+BASE = _BASE_DIR + "/repo"
+subprocess.run(["rsync", "-a", "--exclude", "_build", "--exclude", ".git", "/repo/", BASE + "/"], check=True)
+import atexit
+atexit.register(lambda: shutil.rmtree(_BASE_DIR, ignore_errors=True))
+
+
 def run_patch(p):
     w = tempfile.mkdtemp(prefix="acq-mx.", dir="/var/tmp")
     try:
-        subprocess.run(["rsync", "-a", "--exclude", "_build", "--exclude", ".git", "/repo/", w + "/repo/"], check=True)
+        subprocess.run(["rsync", "-a", BASE + "/", w + "/repo/"], check=True)
         r = subprocess.run([V + "/tools/apply_patch.sh", w + "/repo", os.path.abspath(p)], capture_output=True, text=True)
         if r.returncode != 0:
             return p, {"error": "patch does not apply: " + (r.stdout + r.stderr)[-300:]}
         out = {}
         env = dict(os.environ, ACQ_REPO=w + "/repo", ACQ_NO_EVIDENCE="1", ACQ_NO_CONTROLS="1")
-        for c in relevant_checks(p):
-            r = subprocess.run([V + "/check", c], capture_output=True, text=True, env=env, cwd=V)
-            rules = sorted({l.split("[")[1].split("]")[0] for l in r.stdout.splitlines() if l.strip().startswith("finding [")})
-            for l in r.stdout.splitlines():
-                if l.startswith("VIOLATION ") and "replay=" in l:
-                    rp = l.split("replay=")[1].strip()
-                    try:
-                        rules = sorted({f["rule"] for f in json.load(open(rp))["findings"]})
-                        if rp.startswith(tempfile.gettempdir()):
-                            os.remove(rp)
-                    except Exception:
-                        pass
-            out[c] = {"rc": r.returncode, "rules": rules}
+        todo = relevant_checks(p)
+        r = subprocess.run([V + "/check", ",".join(todo) + ("," if len(todo) == 1 else "")], capture_output=True, text=True, env=env, cwd=V)
+        cur, buf = None, {}
+        for l in r.stdout.splitlines():
+            if l.startswith("=== rc "):
+                _, _, c, rc = l.split()
+                lines = buf.get(c, [])
+                rules = sorted({x.split("[")[1].split("]")[0] for x in lines if x.strip().startswith("finding [")})
+                for x in lines:
+                    if x.startswith("VIOLATION ") and "replay=" in x:
+                        rp = x.split("replay=")[1].strip()
+                        try:
+                            rules = sorted({f["rule"] for f in json.load(open(rp))["findings"]})
+                            if rp.startswith(tempfile.gettempdir()):
+                                os.remove(rp)
+                        except Exception:
+                            pass
+                out[c] = {"rc": int(rc), "rules": rules}
+                cur = None
+            elif l.startswith("=== "):
+                cur = l.split()[1]
+                buf[cur] = []
+            elif cur is not None:
+                buf[cur].append(l)
+        for c in todo:
+            out.setdefault(c, {"rc": 2, "rules": ["checker crashed: " + r.stderr[-200:]]})
         return p, out
     finally:
         shutil.rmtree(w, ignore_errors=True)
